@@ -46,9 +46,13 @@ PercentLaws == /\ Mape(Truth, Truth) = R(0) /\ Bias(Truth, Truth) = R(0)
                                      /\ Mape(Shift(100 - p, 100), Truth) = R(p)
                                      /\ Bias(Shift(100 - p, 100), Truth) = R(-p)
 \* common scale and permutation invariance are visible in the definitions: each term is a ratio, the sum is symmetric
-ScaleLaw == \A k \in {2, 3} : LET sc(v) == [i \in 1..Len(v) |-> Mul(v[i], R(k))]
+\* (negative factors and factors that differ from sample to sample included: truths of either sign, mixed signs)
+ScaleLaw == /\ \A k \in {2, 3, -1, -2} : LET sc(v) == [i \in 1..Len(v) |-> Mul(v[i], R(k))]
                               IN /\ Mape(sc(Shift(125, 100)), sc(Truth)) = Mape(Shift(125, 100), Truth)
                                  /\ Bias(sc(Shift(75, 100)), sc(Truth)) = Bias(Shift(75, 100), Truth)
+            /\ LET alt(v) == [i \in 1..Len(v) |-> Mul(v[i], R(IF i % 2 = 1 THEN -2 ELSE 1))]
+               IN /\ Mape(alt(Shift(125, 100)), alt(Truth)) = R(25) /\ Bias(alt(Shift(125, 100)), alt(Truth)) = R(25)
+                  /\ Mape(alt(Shift(50, 100)), alt(Truth)) = R(50) /\ Bias(alt(Shift(50, 100)), alt(Truth)) = R(-50)
 
 \* ---- replay cases (Mode = "cases") ----------------------------------------
 \* est[i] is the estimate for observation s[i]; three fractions at once give the (n, k) shape
